@@ -42,17 +42,17 @@ def main():
                 "demonstration": "notes.md argues property by property why all twenty still hold",
                 "ran": "tools/killmatrix.py seeded/%s --tests" % name,
             }
-        elif name.startswith(("agent-", "agent2-", "agent3-")):
+        elif name.startswith(("agent-", "agent2-", "agent3-", "agent4-")):
             prop = name.split("-")[1]
             notes = open(os.path.join(d, "notes.md")).read() if os.path.exists(os.path.join(d, "notes.md")) else ""
             meta = {
                 "id": name, "breaks": prop,
                 "origin": "written by an independent sub-agent (round %s) that was given only the text of "
                           "property %s and its own scratch worktree of /repo (nothing from /verif)%s" % (
-                              "3" if name.startswith("agent3-") else ("2" if name.startswith("agent2-") else "1"), prop,
+                              "4" if name.startswith("agent4-") else "3" if name.startswith("agent3-") else ("2" if name.startswith("agent2-") else "1"), prop,
                               "; round 2 was additionally given one-line summaries of the round-1 changes "
                               "(written by the round-1 agents) and asked for different, subtler mechanisms"
-                              if name.startswith(("agent2-", "agent3-")) else ""),
+                              if name.startswith(("agent2-", "agent3-", "agent4-")) else ""),
                 "what": first_heading(notes),
                 "needs_to_manifest": "see notes.md (the sub-agent's own description)",
                 "demonstration": "demo.py <checkout>: exits 0 on the clean tree, 1 with patch.diff applied",
